@@ -198,7 +198,20 @@ func nonZeroAt(fn *ssa.Function, v ssa.Value, b *ssa.BasicBlock) (string, bool) 
 			continue
 		}
 		if !sameValue(fn, peelSame(subj), core) {
-			continue
+			// a fact established by the caller of a single-site helper about the same receiver field
+			cross := false
+			if inlineAware {
+				si, ok1 := peelSame(subj).(ssa.Instruction)
+				ci, ok2 := core.(ssa.Instruction)
+				if ok1 && ok2 && si.Parent() != ci.Parent() {
+					if d := describeVal(subj); d == describeVal(core) && (strings.HasPrefix(d, "recv.") || strings.HasPrefix(d, "arg")) {
+						cross = true
+					}
+				}
+			}
+			if !cross {
+				continue
+			}
 		}
 		// subj op 0 holds with polarity f.Val
 		switch {
